@@ -15,7 +15,9 @@ CLAIM = dict(
          'between tokens, optional padding around parentheses, trailing # comment) the lexer model returns the same tokens, hence '
          'the same parsed item; string/error lines may be indented freely; register spellings (number, xN, ABI alias) are '
          'read alike by the generated lookup_register; decimal / hex / binary spellings are read alike by int(s, 0); '
-         'imm(reg) and reg, imm forms parse to the same item for the 11 base+offset mnemonics. Tie: model tokens / items vs the '
+         'C13_imm_reg_loads/stores: imm(reg) and reg, imm parse to the SAME item for exactly the mnemonics of the generated '
+         'BASE_OFFSET_INSTRUCTIONS table; C13_program: line-by-line token-equal versions of a program give the same result of the '
+         'whole model (lex + parse + 16 passes), both modes (blank-line insertion by falsifier only). Tie: model tokens / items vs the '
          'real lex_tokens / parse_item on generated and hand-picked lines. Falsifier: gen_programs x per-line / per-operand '
          'rewrites, bytes + labels, both modes.',
     note='lexer, parser, int(s,0) models are hand-written and tied by differential evaluation only',
